@@ -163,6 +163,14 @@ def run(unit, R, tier, only=None):
                     rb = list(zip([x for x in f["bins/chrom"][:]], f["bins/start"][:].tolist(), f["bins/end"][:].tolist()))
                     if [(s, e) for _, s, e in rb] != [(b[1], b[2]) for b in bins]:
                         R.mismatch("root-bin-table!=common-table", inner, f"{rb}")
+                # history: a bin column is then added to the FIRST cell only (what storing balancing weights does); it must not
+                # appear in the root table nor in any other cell
+                with h5py.File(p, "r+") as f:
+                    f["cells"][names[0]]["bins"].create_dataset("probe", data=np.arange(n, dtype=float))
+                with h5py.File(p, "r") as f:
+                    leaked = [w for w in ["/bins"] + ["/cells/" + nm + "/bins" for nm in names[1:]] if "probe" in f[w]]
+                if leaked:
+                    R.mismatch("column-added-to-one-cell-appears-elsewhere", inner, f"{leaked}")
                 for q, nm in enumerate(names):
                     uri = p + "::/cells/" + nm
                     ci = {**inner, "cell": nm}
